@@ -51,7 +51,7 @@ def C07(tier):
     quick = tier != 'thorough'
     for rule, opts in RULE_CFGS:
         slow = rule in ('qpq', 'meek-prf') or opts.get('arithmetic') == 'guarded'
-        r['jobs'].append(djob('tie2', rule, opts, 3, 2, 2 if slow else 3, (4 if slow else 5) + (0 if quick else 1), symtie=True, budget=300 if quick else 1500))
+        r['jobs'].append(djob('tie2', rule, opts, 3, 2, 2 if slow else 3, (4 if slow else 5) + (0 if quick else 1), symtie=True, budget=600 if quick else 1500))
     if not quick:
         for rule, opts in [('wigm-prf-batch', {}), ('scotland', {}), ('cfer-batch', {}), ('mpls', {})]:
             r['jobs'].append(djob('tie2', rule, opts, 4, 2, 2, 5, symtie=True, budget=1500, weight=5))
@@ -196,21 +196,21 @@ def C13(tier):
                 r['jobs'].append(djob('opts', rule, {}, 3, seats, 3, 5 if quick else 6,
                                       optionsA=dict(rule=rule, arithmetic='fixed', precision=p, **om),
                                       optionsB=dict(rule=rule, arithmetic='guarded', precision=p, guard=0, **om), ignore_msgs=False,
-                                      budget=300 if quick else 1500, cfg='g0-vs-fixed p=%d' % p))
+                                      budget=600 if quick else 1500, cfg='g0-vs-fixed p=%d' % p))
     # display digits different from the precision (they must not influence the comparison tolerance or the count)
     for rule, om in (('wigm', {}), ('meek', {'omega': 2})):
         for d in (0, 1):
             r['jobs'].append(djob('opts', rule, {}, 3, 2, 3, 5, optionsA=dict(rule=rule, arithmetic='fixed', precision=3, display=d, **om),
-                                  optionsB=dict(rule=rule, arithmetic='guarded', precision=3, guard=0, display=d, **om), budget=300 if quick else 1500,
+                                  optionsB=dict(rule=rule, arithmetic='guarded', precision=3, guard=0, display=d, **om), budget=600 if quick else 1500,
                                   cfg='g0-vs-fixed p=3 display=%d' % d))
-    r['jobs'].append(djob('gq', 'wigm', {'display': 2}, 3, 2, 2, 4, p=4, g=4, budget=300 if quick else 1500, weight=5))
+    r['jobs'].append(djob('gq', 'wigm', {'display': 2}, 3, 2, 2, 4, p=4, g=4, budget=600 if quick else 1500, weight=5))
     # a tally landing exactly on the rounded-up quota needs a coarse precision and a few more ballots
     r['jobs'].append(djob('opts', 'wigm', {}, 3, 2, 2, 7, optionsA=dict(rule='wigm', arithmetic='fixed', precision=1),
-                          optionsB=dict(rule='wigm', arithmetic='guarded', precision=1, guard=0), budget=300 if quick else 1500, cfg='g0-vs-fixed p=1 N<=7', weight=6))
+                          optionsB=dict(rule='wigm', arithmetic='guarded', precision=1, guard=0), budget=600 if quick else 1500, cfg='g0-vs-fixed p=1 N<=7', weight=6))
     # (c) quasi-exact == exact when the comparison statistics show no near-tolerance comparison
     for rule, om in (('wigm', {}), ('meek', {'omega': 2}), ('warren', {'omega': 2})):
         for (p, g) in (((4, 4), (2, 1)) if quick else ((4, 4), (6, 3), (9, 9), (2, 1))):
-            r['jobs'].append(djob('gq', rule, om, 3, 1 if rule != 'wigm' else 2, 2, 4, p=p, g=g, budget=300 if quick else 1500, weight=5))
+            r['jobs'].append(djob('gq', rule, om, 3, 1 if rule != 'wigm' else 2, 2, 4, p=p, g=g, budget=600 if quick else 1500, weight=5))
     r['require_reach'] = r['require_reach'] + ['pair-compared', 'premise-holds']
     r['assumptions'] = r['assumptions'] + DIFF_ASSUME + ['(c) reads "statistics show no comparison near the tolerance" as maxDiff < geps/100 and minDiff > 100*geps']
     r['level_text'] = r['level_text'] + '; ' + LEVEL_DIFF
@@ -272,8 +272,8 @@ def C16(tier):
             for i in range(0, len(pairs), 8):
                 jobs.append(dict(kind='token', name='%s two edits %s' % (name, pairs[i:i + 8]), mode='edit2', template=name, pairs=pairs[i:i + 8],
                                  budget_s=1500, weight=6, validate_every=5))
-    jobs.append(dict(kind='token', name='truncations and deletions (concrete)', mode='concrete', texts=_texts_trunc(), budget_s=300))
-    jobs.append(dict(kind='token', name='ranking array typecode law (symbolic candidate count)', mode='array', budget_s=300))
+    jobs.append(dict(kind='token', name='truncations and deletions (concrete)', mode='concrete', texts=_texts_trunc(), budget_s=600))
+    jobs.append(dict(kind='token', name='ranking array typecode law (symbolic candidate count)', mode='array', budget_s=600))
     return dict(jobs=jobs, level_text=LEVEL_TOKEN, assumptions=TOKEN_ASSUME,
                 require_reach=['error', 'accepted', 'typecode-B', 'typecode-H'],
                 bounds=dict(alphabet=tokrun.ALPHABET, soup_lengths=Ls, templates={k: ' '.join(tokrun.flat(v)) for k, v in tokrun.TEMPLATES.items()},
@@ -303,7 +303,7 @@ def _layout_jobs(tier):
                 gs = gapsets[part::k]
                 if gs:
                     jobs.append(dict(kind='token', mode='wellformed', name='well-formed %s refs %s gaps part %d' % (st, w, part), struct=st, symrefs=w,
-                                     gapsets=gs, budget_s=300 if quick else 1500, weight=2))
+                                     gapsets=gs, budget_s=600 if quick else 1500, weight=2))
     return jobs
 
 
@@ -334,7 +334,7 @@ LEVEL_DIFF = ('differential bounded symbolic execution of the real code: two (or
               'feasible path and their records compared; unsat of "some field differs" on every path')
 
 
-def djob(mode, rule, opts, n, seats, maxlen, N, budget=300, **kw):
+def djob(mode, rule, opts, n, seats, maxlen, N, budget=600, **kw):
     d = dict(kind='diff', mode=mode, rule=rule, opts=dict(opts), n=n, seats=seats, maxlen=maxlen, N=N, budget_s=budget, weight=kw.pop('weight', 2))
     d['name'] = '%s %s %s n=%d seats=%d len<=%d N<=%d %s' % (mode, rule, ','.join('%s=%s' % kv for kv in sorted(opts.items())), n, seats, maxlen, N,
                                                           ' '.join('%s=%s' % kv for kv in sorted(kw.items()) if kv[0] not in ('optionsA', 'optionsB', 'batch')))
@@ -349,17 +349,17 @@ def C10(tier):
     for rule, opts in RULE_CFGS:
         slow = rule in ('qpq', 'meek-prf') or opts.get('arithmetic') == 'guarded'
         for seats in ((2,) if quick else (1, 2)):
-            jobs.append(djob('split', rule, opts, 3, seats, 2 if (slow and quick) else 3, N - (1 if slow else 0), budget=300 if quick else 1500))
+            jobs.append(djob('split', rule, opts, 3, seats, 2 if (slow and quick) else 3, N - (1 if slow else 0), budget=600 if quick else 1500))
     if not quick:
         for rule, opts in [('wigm-prf-batch', {}), ('cfer-batch', {}), ('mpls', {}), ('meek', FX3)]:
             jobs.append(djob('split', rule, opts, 4, 2, 2, 5, budget=1500))
         jobs.append(djob('split', 'wigm', grid.RAT, 3, 2, 2, 4, budget=1500))
     # equal-rank lines (shares of 1/2 and 1/3 of a ballot): splitting or merging such a line must not matter either
     for rule in ('meek', 'warren'):
-        jobs.append(djob('split', rule, FX3, 3, 2, 2, 5 if quick else 6, budget=300 if quick else 1500, equal=grid.EQUAL_LINES))
+        jobs.append(djob('split', rule, FX3, 3, 2, 2, 5 if quick else 6, budget=600 if quick else 1500, equal=grid.EQUAL_LINES))
     # comparison statistics printed under guarded arithmetic: a zero-free universe (every line and every part exists in the file)
     for rule, opts in [('wigm', grid.G44), ('meek', dict(grid.G44, omega=2)), ('warren', dict(grid.G44, omega=2))]:
-        jobs.append(djob('split', rule, opts, 3, 2, 2, 8 if quick else 10, nozero=True, lines=['1 2', '2 1', '3'], budget=300 if quick else 1500))
+        jobs.append(djob('split', rule, opts, 3, 2, 2, 8 if quick else 10, nozero=True, lines=['1 2', '2 1', '3'], budget=600 if quick else 1500))
     # zero-free supports: every pair (thorough: also triple) of distinct rankings, each line present with multiplicity >= 1 and
     # split (both parts present) or not -- no ballot line of multiplicity 0 exists in these runs
     import itertools
@@ -380,9 +380,9 @@ def C10(tier):
         for rule, opts in sup_rules:
             for k in range(nchunk):
                 jobs.append(djob('split', rule, opts, n, seats, maxlen, Nn, nozero=True, batch=batch[k::nchunk], validate_every=5,
-                                 budget=300 if quick else 1500, chunk='%d/%d of %d zero-free supports' % (k + 1, nchunk, len(batch)), weight=4))
+                                 budget=600 if quick else 1500, chunk='%d/%d of %d zero-free supports' % (k + 1, nchunk, len(batch)), weight=4))
     tj = _layout_jobs(tier)
-    jobs.append(djob('opts', 'wigm', {}, 3, 2, 2, 4, optionsA=dict(rule='wigm-prf'), optionsB=dict(rule='scotland'), budget=120, twin_job=True, max_per_key=1,
+    jobs.append(djob('opts', 'wigm', {}, 3, 2, 2, 4, optionsA=dict(rule='wigm-prf'), optionsB=dict(rule='scotland'), budget=300, twin_job=True, max_per_key=1,
                      cfg='vacuity twin: two different rules must be reported as different'))
     return dict(jobs=jobs + tj, level_text=LEVEL_DIFF + '; plus token-mode layout variants of the reader (see C15)', assumptions=DIFF_ASSUME + TOKEN_ASSUME,
                 require_reach=['pair-compared', 'layout-compared'],
@@ -395,20 +395,20 @@ def C11(tier):
     quick = tier != 'thorough'
     for rule, opts in RULE_CFGS:
         slow = rule in ('qpq', 'meek-prf') or opts.get('arithmetic') == 'guarded'
-        jobs.append(djob('perm', rule, opts, 3, 2, 2 if slow else 3, 4 if slow else 5, symtie=True, budget=300 if quick else 1500, weight=4))
+        jobs.append(djob('perm', rule, opts, 3, 2, 2 if slow else 3, 4 if slow else 5, symtie=True, budget=600 if quick else 1500, weight=4))
         if not quick:
             jobs.append(djob('perm', rule, opts, 3, 1, 3, 5, symtie=True, budget=1500, weight=4))
         for w in ((2,) if quick else (1, 2, 4)):
-            jobs.append(djob('withdraw', rule, opts, 4, 2, 2, 5 if not slow else 4, w=w, budget=300 if quick else 1500, weight=3))
+            jobs.append(djob('withdraw', rule, opts, 4, 2, 2, 5 if not slow else 4, w=w, budget=600 if quick else 1500, weight=3))
     # two candidates withdrawn at once (adjacent on some ballots)
     for rule, opts in ([('wigm', grid.FX2), ('scotland', {}), ('meek', FX3), ('cfer', {})] if quick else RULE_CFGS):
-        jobs.append(djob('withdraw', rule, opts, 4, 1, 3, 4, w=[2, 3], budget=300 if quick else 1500, weight=3))
+        jobs.append(djob('withdraw', rule, opts, 4, 1, 3, 4, w=[2, 3], budget=600 if quick else 1500, weight=3))
     # a three-way tie decided by an earlier stage: four candidates
-    jobs.append(djob('perm', 'scotland', {}, 4, 2, 2, 5, symtie=True, perm_limit=4 if quick else 12, budget=300 if quick else 1500, weight=8))
+    jobs.append(djob('perm', 'scotland', {}, 4, 2, 2, 5, symtie=True, perm_limit=4 if quick else 12, budget=600 if quick else 1500, weight=8))
     if not quick:
         for rule, opts in [('wigm-prf', {}), ('cfer-batch', {}), ('meek', FX3)]:
             jobs.append(djob('perm', rule, opts, 4, 2, 2, 5, symtie=True, perm_limit=6, budget=1500, weight=6))
-    jobs.append(djob('opts', 'wigm', {}, 3, 2, 2, 4, optionsA=dict(rule='wigm-prf'), optionsB=dict(rule='scotland'), budget=120, twin_job=True, max_per_key=1,
+    jobs.append(djob('opts', 'wigm', {}, 3, 2, 2, 4, optionsA=dict(rule='wigm-prf'), optionsB=dict(rule='scotland'), budget=300, twin_job=True, max_per_key=1,
                      cfg='vacuity twin: two different rules must be reported as different'))
     return dict(jobs=jobs, level_text=LEVEL_DIFF, assumptions=DIFF_ASSUME, require_reach=['pair-compared'],
                 bounds=dict(renumbering='all permutations of 3 candidate ids (thorough: 6 sampled of 4), names, tie ranks (symbolic) and rankings carried along',
@@ -425,7 +425,7 @@ STATUTORY = ['wigm-prf', 'wigm-prf-batch', 'meek-prf', 'scotland', 'mpls', 'cfer
 
 
 def C17(tier):
-    jobs = [dict(kind='misc', mode='options', name='option layers: presence 2^4 x symbolic values', budget_s=300,
+    jobs = [dict(kind='misc', mode='options', name='option layers: presence 2^4 x symbolic values', budget_s=600,
                  names=['precision', 'omega', 'display', 'guard', 'zzz'])]
     quick = tier != 'thorough'
     for rule in STATUTORY:
@@ -443,7 +443,7 @@ def C17(tier):
                 if src in ('file', 'both'):
                     extraB = '[droop %s]' % ptxt
                 jobs.append(djob('opts', rule, {}, 3, 2, 2 if slow else 3, 4 if slow else 5, optionsA=dict(rule=rule), optionsB=optsB, extraB=extraB,
-                                 budget=300 if quick else 1500, perturb='%s:%d' % (src, k)))
+                                 budget=600 if quick else 1500, perturb='%s:%d' % (src, k)))
     # report header lines and the record's option layers, on every path of a small count (ballot total fixed: the header prints it)
     FORCED = {'scotland': dict(arithmetic='fixed', precision=5, display=5), 'mpls': dict(arithmetic='fixed', precision=4, display=4),
               'wigm-prf': dict(arithmetic='fixed', precision=4, display=4), 'cfer': dict(arithmetic='fixed', precision=5, display=5),
@@ -458,7 +458,7 @@ def C17(tier):
         overridden = sorted(k for k in forced if k in supplied and supplied[k] != forced[k])
         jobs.append(grid.job(rule, cmd, 3, 2, 2, 4, ['C17h'], 300, fixed_total=True, droop_line=' '.join('%s=%s' % kv for kv in filed.items()),
                              expect_unused=unused, expect_overridden=overridden, expect_file=filed, expect_force=forced, weight=2))
-    jobs.append(djob('opts', 'wigm', {}, 3, 2, 2, 4, optionsA=dict(rule='wigm-prf'), optionsB=dict(rule='scotland'), budget=120, twin_job=True, max_per_key=1,
+    jobs.append(djob('opts', 'wigm', {}, 3, 2, 2, 4, optionsA=dict(rule='wigm-prf'), optionsB=dict(rule='scotland'), budget=300, twin_job=True, max_per_key=1,
                      cfg='vacuity twin: two different rules must be reported as different'))
     return dict(jobs=jobs, level_text=LEVEL_DIFF + '; option layering: the real Options methods run on symbolic option values for every presence pattern of the four layers',
                 assumptions=DIFF_ASSUME, require_reach=['pair-compared', 'layer-assignments', 'header-checked'],
@@ -473,7 +473,7 @@ def C19(tier):
         slow = rule in ('qpq', 'meek-prf') or opts.get('arithmetic') == 'guarded'
         for N in ((4,) if quick else (3, 4, 5)):
             jobs.append(dict(kind='misc', mode='interrupt', name='interrupt %s %s n=3 seats=2 len<=2 N=%d' % (rule, sorted(opts.items()), N), rule=rule,
-                             opts=dict(opts), n=3, seats=2, maxlen=2, N=N, budget_s=300 if quick else 1500, weight=3 if slow else 1))
+                             opts=dict(opts), n=3, seats=2, maxlen=2, N=N, budget_s=600 if quick else 1500, weight=3 if slow else 1))
     # validation against the real thing: a genuine KeyboardInterrupt at every package line event of one concrete count per rule
     texts = ['3 2\n2 1 2 0\n1 2 3 0\n1 3 1 0\n1 2 0\n0\n"A"\n"B"\n"C"\n"T"\n', '4 2\n3 1 2 0\n2 2 1 3 0\n2 3 4 0\n1 4 0\n1 3 0\n0\n"A"\n"B"\n"C"\n"D"\n"T"\n']
     for rule, opts in RULE_CFGS + [('meek', dict(grid.RAT, omega=2)), ('warren', dict(grid.RAT, omega=2))]:
@@ -497,10 +497,10 @@ def C20(tier):
     for rule, opts in cfgs:
         slow = rule in ('qpq', 'meek-prf') or opts.get('arithmetic') in ('guarded', None) and rule in ('wigm', 'meek')
         jobs.append(dict(kind='misc', mode='havoc', name='havoc %s %s' % (rule, sorted(opts.items())), rule=rule, opts=dict(opts), n=3, seats=2, maxlen=2,
-                         N=4 if (quick or slow) else 5, budget_s=300 if quick else 1500, weight=3 if slow else 1))
-        jobs.append(djob('twice', rule, opts, 3, 2, 2, 4, budget=300, **(dict(equal=grid.EQUAL_LINES) if rule in ('meek', 'warren') else {})))
-    jobs.append(dict(kind='misc', mode='havoc', name='havoc wigm rational', rule='wigm', opts=dict(grid.RAT), n=3, seats=1, maxlen=2, N=4, budget_s=300))
-    jobs.append(djob('opts', 'wigm', {}, 3, 2, 2, 4, optionsA=dict(rule='wigm-prf'), optionsB=dict(rule='scotland'), budget=120, twin_job=True, max_per_key=1,
+                         N=4 if (quick or slow) else 5, budget_s=600 if quick else 1500, weight=3 if slow else 1))
+        jobs.append(djob('twice', rule, opts, 3, 2, 2, 4, budget=600, **(dict(equal=grid.EQUAL_LINES) if rule in ('meek', 'warren') else {})))
+    jobs.append(dict(kind='misc', mode='havoc', name='havoc wigm rational', rule='wigm', opts=dict(grid.RAT), n=3, seats=1, maxlen=2, N=4, budget_s=600))
+    jobs.append(djob('opts', 'wigm', {}, 3, 2, 2, 4, optionsA=dict(rule='wigm-prf'), optionsB=dict(rule='scotland'), budget=300, twin_job=True, max_per_key=1,
                      cfg='vacuity twin: two different rules must be reported as different'))
     return dict(jobs=jobs, level_text='inductive step instead of histories: every class/module attribute that any election can leave changed (measured on a predecessor family, reported '
                 'with its static AST superset) is havocked to a poison value before the election under test is constructed and counted symbolically on every feasible path; '
